@@ -789,7 +789,7 @@ fn check_window(case: &WinCase) -> CaseResult {
     sh.push(Item::Msg(TopicLogSyncMessage::Sync(LogSyncMessage::Have(Default::default()))));
     sh.push(Item::Msg(TopicLogSyncMessage::Sync(LogSyncMessage::Done)));
     drive(&mut st, &mut budget)?;
-    for step in case.steps {
+    for step in &case.steps {
         match *step {
             WinStep::Remote(i) => sh.push(Item::Msg(live_msg(&p.fresh[i as usize % FRESH]))),
             WinStep::Local(i) => {
